@@ -14,7 +14,6 @@ import (
 	"sync"
 	"time"
 
-	"github.com/k0kubun/pp"
 	"github.com/pkg/errors"
 	"github.com/xelaj/errs"
 
@@ -206,6 +205,9 @@ func (m *MTProto) makeRequest(data tl.Object, expectedTypes ...reflect.Type) (an
 	case *errorSessionConfigsChanged:
 		return m.makeRequest(data, expectedTypes...)
 
+	case *BadMsgError:
+		return nil, r
+
 	case *errorUndecodableResponse:
 		return nil, r
 
@@ -279,7 +281,8 @@ func (m *MTProto) startReadingResponses(ctx context.Context) {
 						m.warnError(errors.Wrap(err, "can't reconnect"))
 					}
 				default:
-					check(err)
+					// a message the client can't make sense of must not stop it from reading the next one
+					m.warnError(err)
 				}
 			}
 		}
@@ -373,9 +376,16 @@ messageTypeSwitching:
 		// игнорим, пришло и пришло, че бубнить то
 
 	case *objects.BadMsgNotification:
-		pp.Println(message)
-		panic(message) // for debug, looks like this message is important
-		return BadMsgErrorFromNative(message)
+		// the request named by bad_msg_id will get no other answer: its caller receives the error
+		badMsgErr := BadMsgErrorFromNative(message)
+		badMsgID := int(message.BadMsgID)
+		v, ok := m.responseChannels.Get(badMsgID)
+		if !ok {
+			return badMsgErr
+		}
+		m.responseChannels.Delete(badMsgID)
+		m.expectedTypes.Delete(badMsgID)
+		v <- badMsgErr
 
 	case *objects.RpcResult:
 		obj := message.Obj
